@@ -409,6 +409,8 @@ def C04(run):
 def C07(run):
     run.model_check("MCSnap", "MCSnap_quick.cfg", workers=8)
     _system_common(run, "C07:", "subsets")
+    # several requests AT THE SAME TIME on one cache directory (the statement names "a concurrent request" among the causes)
+    _system_trace(run, "C07:", "concurrent", n=(40 if run.tier == "quick" else 600))
     # job level, EXHAUSTIVE over the cache files of one segment: every stage x every subset of the segment's files.
     # Design level: Job.tla (transcription of GetExecutionPlan + the job's writes) establishes the job contract on all 2^12 x 3 states
     run.model_check("MCJob", "MCJob.cfg", workers=4)
